@@ -129,7 +129,7 @@ def make_cases(chk):
                 rel = rng.choice([1.2, 1.5, 3, 0.6, 0.9, 0.98, 0.995])     # a target just below the current quantity is as unreachable as a far one
                 g.fill(target='c', rel=rel, sig=4 if rel > 0.95 and rel < 1 else 2)
         gens.append(g)
-    return gens
+    return gen.twin_lot_cases(chk.seed, 'fill') + gens
 
 
 def add_dilute(g, rng, keep=0.3, named=0.4):
